@@ -52,7 +52,7 @@ func zeroMask(b []byte) []byte {
 func TestC11(t *testing.T) {
 	r := NewReporter(t)
 	defer r.Done()
-	r.Rule("full product of directory-name case x nesting x extension case x key placement {none, adjacent, REDKEY, both (different keys), malformed adjacent, malformed REDKEY} x watermark {none, encrypted, decrypted} x file length around 0xF70..0x1070 x {read, write}; every layout read sequentially and positionally across the watermark borders, and again with every underlying Read capped at {1000, 7} (thorough: 2047, 1000, 16, 7, 1) bytes; oracle = decision table written from the statement selecting one of {identity, redump decrypt, 3k3y decrypt+mask, mask}; distinct by layout")
+	r.Rule("full product of directory-name case x nesting x extension case x key placement {none, adjacent, REDKEY, both (different keys), malformed adjacent, malformed REDKEY} x watermark {none, encrypted, decrypted} x file length around 0xF70..0x1070 x {read, write}; every layout read sequentially and positionally across the watermark borders, and again with every underlying Read capped at {1000, 7} (thorough: 2047, 1000, 16, 7, 1) bytes; key files changed between opens on one serving filesystem (all ordered pairs of placements); oracle = decision table written from the statement selecting one of {identity, redump decrypt, 3k3y decrypt+mask, mask}; distinct by layout")
 	root := filepath.Join(scratchBase(), sprintf("verifh-c11-%d", os.Getpid()), "root")
 	defer os.RemoveAll(filepath.Dir(root))
 	tables := [][]uint32{{0, 2, 4, 5}, {0, 1, 4, 5}} // sector 3 encrypted / sectors 2-3 encrypted (tail of the 3k3y area is ciphertext on disk)
@@ -86,6 +86,21 @@ func TestC11(t *testing.T) {
 		}
 		if r.TimeUp() {
 			break
+		}
+	}
+	// key files that change between two opens on the same serving filesystem (a key is deleted, added beside the
+	// image, moved to REDKEY): every open decides anew; every ordered pair of placements, watermark none / encrypted
+	placements := []string{"none", "adjacent", "redkey", "both"}
+	for _, wm := range []string{"none", "enc"} {
+		for ai, a := range placements {
+			for bi, b := range placements {
+				idx++
+				if a == b || !r.Mine(idx) {
+					continue
+				}
+				_, _ = ai, bi
+				c11KeyChange(r, root, a, b, wm, tables[0], k1, k2, kEmb)
+			}
 		}
 	}
 	r.Assume("reference decryptor as in C10; 'below a PS3ISO directory' = some path element equals ps3iso case-insensitively; files shorter than the watermark area carrying a watermark are a don't-care between identity and the 3k3y transformation")
@@ -370,3 +385,74 @@ func c11Run(r *Reporter, root string, l c11Layout, pairs []uint32, k1, k2, kEmb 
 		}
 	}
 }
+
+// c11KeyChange: image /PS3ISO/g.iso (encrypted under the adjacent key k1, or under the embedded key when it
+// carries the 3k3y watermark); key placement a, open+read, placement b, open+read again on the same FS value.
+func c11KeyChange(r *Reporter, root, a, b, wm string, pairs []uint32, k1, k2, kEmb []byte) {
+	os.RemoveAll(root)
+	must(os.MkdirAll(root, 0o755))
+	plain := patBytes(77, 0, 6*2048)
+	copy(plain, regionTable(pairs))
+	diskKey := k1
+	if wm == "enc" {
+		copy(plain[0xF70:], wmEnc)
+		copy(plain[0xF80:], kEmb)
+		diskKey = kEmb
+	}
+	disk := buildEncImage(plain, pairs, diskKey)
+	imgP, adjP, redP := "/PS3ISO/g.iso", "/PS3ISO/g.dkey", "/REDKEY/g.dkey"
+	writeFileAbs(filepath.Join(root, imgP), disk, baseTime)
+	place := func(p string) {
+		os.Remove(filepath.Join(root, adjP))
+		os.Remove(filepath.Join(root, redP))
+		if p == "adjacent" || p == "both" {
+			writeFileAbs(filepath.Join(root, adjP), []byte(hex.EncodeToString(k1)), baseTime)
+		}
+		if p == "redkey" || p == "both" {
+			writeFileAbs(filepath.Join(root, redP), []byte(hex.EncodeToString(k2)), baseTime)
+		}
+	}
+	expect := func(p string) ([]byte, string) {
+		switch p {
+		case "adjacent", "both":
+			return refDecryptImage(disk, pairs, k1, false), "redump(adjacent key)"
+		case "redkey":
+			return refDecryptImage(disk, pairs, k2, false), "redump(REDKEY key)"
+		}
+		if wm == "enc" {
+			return zeroMask(refDecryptImage(disk, pairs, kEmb, false)), "3k3y(embedded key)"
+		}
+		return disk, "identity"
+	}
+	fsys := &pfs.FS{Fs: afero.NewBasePathFs(afero.NewOsFs(), root)}
+	key := sprintf("key change %s -> %s wm=%s", a, b, wm)
+	r.State(key)
+	r.Nontrivial(key)
+	r.Eval(1)
+	for step, p := range []string{a, b, a} {
+		place(p)
+		f, err := fsys.OpenFile(imgP, os.O_RDONLY, 0)
+		r.Transition(1)
+		if err != nil {
+			r.Violation("C11:key-change:open-failed", sprintf("%s: open %d with key placement %s failed: %v", key, step, p, err), map[string]any{"from": a, "to": b, "watermark": wm})
+			return
+		}
+		got, rerr := io.ReadAll(f)
+		f.Close()
+		want, name := expect(p)
+		if rerr != nil || !bytes.Equal(got, want) {
+			applied := "unknown transformation"
+			for _, q := range placements4 {
+				if w2, n2 := expect(q); bytes.Equal(got, w2) {
+					applied = n2 + " (what placement " + q + " calls for)"
+				}
+			}
+			r.Outcome("key-change-stale")
+			r.Violation("C11:key-change:wrong-transformation", sprintf("%s: open %d (key files now: %s) serves '%s', want %s (read error %v)", key, step, p, applied, name, rerr), map[string]any{"from": a, "to": b, "watermark": wm, "open": step})
+			return
+		}
+	}
+	r.Outcome("key-change-followed")
+}
+
+var placements4 = []string{"none", "adjacent", "redkey", "both"}
